@@ -303,6 +303,21 @@ def norm_chain(chain, *vals):
             rest = [(rw_b(bb, rw), rw(gg)) for bb, gg in chain[k + 1:]]
             vals = [rw(v) for v in vals]
             return tuple(out) + ((i, rw(g)),) + tuple(rest), vals
+        conj = list(g[2]) if (g[0] == 'bool' and g[1] == 'and') else [g]
+        from .shapes import drop_placeholders, notnone_forms
+        nn = [c for c in conj if c in notnone_forms(b)]
+        if nn and b[3][0] == 'accum':
+            # for b in PER_ROW if b is not None, PER_ROW = per row `chosen or [None]`: the placeholders vanish
+            flat = drop_placeholders(('comp', ((b, nn[0]),), b))
+            if flat[1] != ((b, nn[0]),):
+                def rw(x, v2=flat[2]):
+                    return replace(x, b, v2)
+                inner = list(flat[1])
+                restg = [c for c in conj if c not in nn]
+                inner[-1] = (inner[-1][0], AND(inner[-1][1], *[rw(c) for c in restg]))
+                rest = [(rw_b(bb, rw), rw(gg)) for bb, gg in chain[k + 1:]]
+                vals = [rw(v) for v in vals]
+                return tuple(out) + tuple(inner) + tuple(rest), vals
         ge = group_elem(dom)
         if ge is not None:
             # for b in GROUPS[j]  ==  for the scattered elements whose key is j, in scatter order
@@ -489,6 +504,8 @@ def step(t):
             return b
         if op == 'Add' and b == C(0) and a[0] in ('sum', 'max0'):
             return a
+        if op == 'Pow' and a[0] == 'ite' and a[3] == C(0) and b[0] == 'const' and isinstance(b[1], int) and b[1] >= 1:
+            return ('ite', a[1], BIN('Pow', a[2], b), C(0))          # (x if c else 0) ** e
         if op == 'Pow' and b == C(2):
             return BIN('Mult', a, a)
         if op == 'Pow' and b == C(1):
@@ -506,6 +523,10 @@ def step(t):
         if r is not None:
             return r
     if k == 'comp':
+        from .shapes import drop_placeholders
+        dp = drop_placeholders(t)
+        if dp is not t and dp != t:
+            return dp
         nc = norm_chain(t[1], t[2])
         if nc is not None:
             return ('comp', nc[0], nc[1][0])
@@ -519,7 +540,15 @@ def step(t):
         nc = norm_chain(t[1], t[2])
         if nc is not None:
             return ('sum', nc[0], nc[1][0])
+        if t[2][0] == 'ite' and t[2][3] == C(0):
+            # sum(x if c else 0 for ...) == sum(x for ... if c)
+            return ('sum', t[1][:-1] + ((t[1][-1][0], AND(t[1][-1][1], t[2][1])),), t[2][2])
         return dget_in_chain(t)
+    if k == 'distinct':
+        nc = norm_chain(t[1], t[2])
+        if nc is not None:
+            return ('distinct', nc[0], nc[1][0])
+        return None
     if k == 'srep':
         nc = norm_chain(t[1], t[2])
         if nc is not None:
@@ -603,7 +632,18 @@ def step(t):
             return ('max2', BIN('Sub', a, b), BIN('Sub', b, a))
         if f == S('max') and len(args) == 2 and not kw:
             return ('max2', args[0], args[1])
+        if f == S('getattr') and len(args) == 3 and args[1][0] == 'const' and isinstance(args[1][1], str) and not kw:
+            return ('ite', CALL(S('hasattr'), [args[0], args[1]]), A(args[0], args[1][1]), args[2])
         if f == S('len') and len(args) == 1:
+            x = args[0]
+            # number of distinct keys: len(set(key for chain)) / len of a set filled by add()
+            if x[0] == 'call' and x[1] in (S('set'), S('frozenset')) and len(x[2]) == 1 and x[2][0][0] == 'comp':
+                return ('distinct', x[2][0][1], x[2][0][2])
+            if x[0] == 'setcomp':
+                return ('distinct', x[1], x[2])
+            if x[0] == 'accum' and x[1] in (CALL(S('set'), []), ('set', ())) and len(x[2]) == 1 and x[2][0][0] == 'setadd' \
+                    and not contains(x, lambda y: y[0] in ('carried', 'prefix')):
+                return ('distinct', x[2][0][3], x[2][0][2])
             n = array_len(args[0])
             if n is not None:
                 return n
@@ -780,7 +820,7 @@ def _eq(a, b, env):
             if e is None:
                 return None
         return outer
-    if k in ('sum', 'max0', 'comp', 'srep', 'dictcomp'):
+    if k in ('sum', 'max0', 'comp', 'srep', 'dictcomp', 'distinct'):
         # binders are local to the aggregate: bindings made inside do not leak (the same reference binder may serve
         # several aggregates while the candidate has fresh ones in each)
         e = _eq_chain(a[1], b[1], env)
